@@ -386,7 +386,9 @@ impl ASN1Type {
                         .iter()
                         .any(|m| m.ty.contains_components_of_notation())
             }
-            ASN1Type::SequenceOf(so) => so.element_type.contains_components_of_notation(),
+            ASN1Type::SequenceOf(so) | ASN1Type::SetOf(so) => {
+                so.element_type.contains_components_of_notation()
+            }
             _ => false,
         }
     }
